@@ -324,3 +324,9 @@ package config
 //@   safe callee-panics panic
 //@ func RuleNameSettings.getSeverity [C18]
 //@   safe callee-panics panic
+
+// C18 (range_query): a rule-level promql/range_query check is built without a Prometheus server, so its String()
+// - called for every rule when the checks are selected - needs a non-zero limit (model.ParseDuration never yields a negative one): `max` must parse to one at load time.
+//@ spec func rqValid(s RangeQuerySettings) bool = durParses(s.Max) && durOf(s.Max) != 0
+//@ func RangeQuerySettings.validate [C18]
+//@   ensures result == nil ==> rqValid(s)
